@@ -1,34 +1,16 @@
 (* Model side of the C09 correspondence for WaveletMatrix / WMCore: the structures are rebuilt by Model/WM.v from
    the value list of the case (WMCore::from, and WaveletMatrix::from when the harness built one) and every call
    is answered by the model in the build's overflow mode and select path. Kept in a file of its own (like
-   Check/C09RL.v) because it reuses the offset-packing shortcut of Check/C04.v, whose query constructors have the
-   same names as those of Check/C09.v; Check/C09.v refers to the functions below by qualified names. *)
+   Check/C09RL.v); Check/C09.v refers to the functions below by qualified names. *)
 From Coq Require Import NArith List Bool.
 Require Import SDS.Model.Mach SDS.Model.Bits SDS.Model.Raw SDS.Model.IntVec SDS.Model.BitVec SDS.Model.Iters SDS.Model.WM.
-Require SDS.Check.C04.
+Require SDS.Check.WMBuild.
 Import ListNotations.
 Open Scope N_scope.
 
-(* the `first` IntVector. Alphabets below Check/C04.v's BIG_ALPHABET: the model's start_offsets (collect with
-   width 64, pack). Above: the model's offsets (first_offsets) bit-packed directly into the IntVector that pack()
-   produces (width = bit_len of the largest offset), as in Check/C04.v: the model's element-by-element writer is
-   quadratic. *)
-Definition build_first (m : mode) (V : list N) : res intvec :=
-  let mx := list_max V in
-  if mx <? C04.BIG_ALPHABET then start_offsets m V (lenN V) mx
-  else
-    let* offs := first_offsets m V (lenN V) mx in
-    let w := bit_len (list_max offs) in
-    match C04.intvec_of_elems (C04.packed_elems w offs) with
-    | Some f => Ok f
-    | None => Panic PDoc
-    end.
-
-(* WMCore::from(vals), and WaveletMatrix::from(vals) when the harness built it (alphabets up to 4096) *)
-Definition build (sp : selpath) (m : mode) (has_wm : bool) (V : list N) : res (wmcore * option wmatrix) :=
-  let* core := wm_core_from sp m V in
-  if has_wm then let* f := build_first m V in Ok (core, Some (mkwm (lenN V) core f))
-  else Ok (core, None).
+(* WMCore::from(vals), and WaveletMatrix::from(vals) when the harness built it (alphabets up to 4096); for
+   alphabets above Check/C04.v's BIG_ALPHABET the offsets are bit-packed directly (Check/WMBuild.v) *)
+Definition build := WMBuild.build.
 
 (* iterator.next() of a freshly positioned ValueIter *)
 Definition q_first (sp : selpath) (m : mode) (w : wmatrix) (r : res viter) : res (option (N * N)) :=
